@@ -85,6 +85,8 @@ def stress_names(rng, d):
 def gen_circuit(rng, kind=None, big=False):
     """-> (dump, tags)"""
     kind = kind or rng.choice(["dag", "dag", "dag", "parity", "bb", "bb_unconn", "cyclic", "cyclic", "stress", "stress", "const"])
+    if kind == "pfamily":
+        return parity_family(rng)
     mx = 14 if big else 9
     if kind == "dag":
         d = rand_circuit(rng, mx)
@@ -161,6 +163,60 @@ def alias_followups(d, variables, limit=3):
         else:
             e["bbs"].append([inst, "aliasbb", [] if as_output else [pin], [pin] if as_output else []])
         out.append(e)
+    return out
+
+
+# ---------------------------------------------------------------- parity families and order-reversal probing
+def parity_family(rng):
+    """2-3 parity gates (xor and xnor mixed) with 3-5 operands drawn from a shared pool of 4-6 inputs, so that operand pairs recur."""
+    names = lib.NAME_POOLS[rng.choice(list(lib.NAME_POOLS))]
+    k = rng.randint(4, 6)
+    pool = [names(i) for i in range(k)]
+    nodes = [[n, "input", False, []] for n in pool]
+    for j in range(rng.randint(2, 3)):
+        fi = sorted(rng.sample(pool, rng.randint(3, min(5, k))))
+        nodes.append([f"p{j}", rng.choice(PARITY), True, fi])
+    return {"name": "top", "nodes": nodes, "bbs": []}, ["pfamily"]
+
+
+def tail_pairs(order):
+    """ordered pairs of plain operands met by the chain loop of sat.cnf on list(c.fanin(n)) = order (non-final steps only)"""
+    nets, pairs = list(order), []
+    while len(nets) > 2:
+        if isinstance(nets[-2], str) and isinstance(nets[-1], str):
+            pairs.append((nets[-2], nets[-1]))
+        nets = [None] + nets[:-2]
+    return pairs
+
+
+def reversal_followups(d, limit=2):
+    """Two-gate circuits over the inputs of d whose parity gates chain one shared pair of operands in opposite relative order.
+
+    Runs inside the worker: the order is read off the library's own fanin() under the current hash seed (it depends on the seed and on
+    the size of the fan-in set), so the situation is constructed, not waited for.  Deterministic for a fixed hash seed."""
+    from itertools import combinations
+    pool = [n[0] for n in d["nodes"] if n[1] == "input"][:6]
+    if len(pool) < 4:
+        return []
+    subsets = [sorted(fi) for size in (3, 4, 5) for fi in combinations(pool, size)]
+    probe = {"name": "probe", "nodes": [[n, "input", False, []] for n in pool] + [[f"pr{i}", "xor", True, fi] for i, fi in enumerate(subsets)], "bbs": []}
+    c = lib.build_circuit(probe)
+    seen, found = {}, []
+    for i, fi in enumerate(subsets):
+        for a, b in tail_pairs(list(c.fanin(f"pr{i}"))):
+            if (b, a) in seen and seen[(b, a)] != fi:
+                found.append((seen[(b, a)], fi, (a, b)))
+            seen.setdefault((a, b), fi)
+    out = []
+    types = [("xor", "xnor"), ("xnor", "xor"), ("xor", "xor"), ("xnor", "xnor")]
+    for j, (f0, f1, (a, b)) in enumerate(found):
+        t0, t1 = types[j % 4]
+        e = {"name": "top", "nodes": [[n, "input", False, []] for n in pool] + [["p0", t0, True, f0], ["p1", t1, True, f1]], "bbs": []}
+        ce = lib.build_circuit(e)                      # confirm the reversal on the circuit that is actually encoded
+        if (b, a) in tail_pairs(list(ce.fanin("p0"))) and (a, b) in tail_pairs(list(ce.fanin("p1"))):
+            out.append(e)
+            if len(out) >= limit:
+                break
     return out
 
 
